@@ -442,7 +442,9 @@ func applyInner(o, d *Obj, c Call) (ret []string) {
 			ret = []string{"PANIC", fmt.Sprint(r)}
 		}
 	}()
-	o.log = nil
+	if o.acc != nil {
+		o.log = nil
+	}
 	switch c.Op() {
 	case "Push":
 		var xs []any
